@@ -4,9 +4,9 @@ CONSTANTS
  Q = 11
  Gg = 2
  Vars = {"two", "n", "opt"}
- Ns = {2, 3, 4}
- MsgVecs <- MV23b
- CCoins <- C4c
+ Ns = {2, 3}
+ MsgVecs <- MV23
+ CCoins <- C3c
  SCoins <- C1a
  Tamper = TRUE
  PowM <- TabPowM
